@@ -426,6 +426,8 @@ class Ref:
                 return v
             self.st.failed_member_idx.update(range(mark_t, len(self.st.touched)))
             fails |= v.fails
+            if any(f[0] == "exc" for f in v.fails):
+                self.st.labels.add("coalesce-member-raised")   # known finding K2
             if any(f[0] != "missing" for f in v.fails) or any(p for _, p in self.st.read_log[mark:]):
                 absorbed_after_present_read = True
         raise RFail(fails)
@@ -546,20 +548,22 @@ class Ref:
             raise RFail(fails)
         for kind, s in steps:
             self.st.labels.add("callback" if kind == "cb" else "effect")
-            if kind == "cb":
-                try:
+            try:
+                if kind == "cb":
                     v = self.step(s, "cb", v, e)
-                except RFail as f:
-                    fails |= f.fails
-                    for _, s2 in steps:
-                        if "param" in s2:
-                            try:
-                                self.ev(s2["param"], e)
-                            except RFail as f2:
-                                fails |= f2.fails
-                    raise RFail(fails)
-            else:
-                self.step(s, "effect", v, e)
+                else:
+                    self.step(s, "effect", v, e)
+            except RFail as f:
+                # the parameters of every callback / effect step are inputs of the dataset too (they are part of its
+                # keys): a failure of any of them is a possible failure of the evaluation
+                fails |= f.fails
+                for _, s2 in steps:
+                    if "param" in s2:
+                        try:
+                            self.ev(s2["param"], e)
+                        except RFail as f2:
+                            fails |= f2.fails
+                raise RFail(fails)
         return v
 
     def effects_off(self, e):
